@@ -69,7 +69,14 @@ impl ProtocolError {
             | Self::RateLimited { .. }
             | Self::ServiceUnavailable
             | Self::Timeout => true,
-            Self::Http(e) => e.is_timeout() || e.is_connect(),
+            // A connection that is lost while the request is sent or while the
+            // response head/body is received is a transport failure like
+            // `Network`, not an answer of the server: `is_request` covers
+            // resets and "connection closed before message completed",
+            // `is_body`/`is_decode` a body that ends before its announced length.
+            Self::Http(e) => {
+                e.is_timeout() || e.is_connect() || e.is_request() || e.is_body() || e.is_decode()
+            }
             Self::HttpStatus(status) => {
                 matches!(
                     status,
